@@ -198,14 +198,14 @@ def build_model_runner():
         vos = walk(os.path.join(COQ, "Model"), (".vo",))
         stamp = os.path.join(OCAML, ".stamp")
         inputs = walk(os.path.join(COQ, "Model"), (".v",)) + [os.path.join(COQ, "Extract.v"), os.path.join(COQ, "Proofs", "SemP.v")] + \
-            [os.path.join(OCAML, f) for f in ("conv.ml", "irconv.ml", "main.ml")]
+            [os.path.join(OCAML, f) for f in ("conv.ml", "irconv.ml", "parseconv.ml", "main.ml")]
         digest = sha_files(inputs)
         if os.path.exists(stamp) and open(stamp).read() == digest and os.path.exists(os.path.join(OCAML, "modelrun")):
             return
         if not vos:
             raise CheckError("Coq model not built")
         sh(["coqc", "-Q", "../coq/Model", "ASModel", "-Q", "../coq/Proofs", "ASProofs", "../coq/Extract.v"], cwd=OCAML, timeout=1200)
-        mls = [f for f in ("conv.ml", "irconv.ml", "main.ml") if os.path.exists(os.path.join(OCAML, f))]
+        mls = [f for f in ("conv.ml", "irconv.ml", "parseconv.ml", "main.ml") if os.path.exists(os.path.join(OCAML, f))]
         sh(["ocamlfind", "ocamlopt", "-w", "-a", "-package", "str", "model.mli", "model.ml"] + mls +
            ["-o", "modelrun"], cwd=OCAML, timeout=1200)
         open(stamp, "w").write(digest)
